@@ -198,6 +198,7 @@ fn escape_canon(s: &str) -> Vec<u8> {
             b'&' => o.extend_from_slice(b"&amp;"),
             b'\'' => o.extend_from_slice(b"&apos;"),
             b'"' => o.extend_from_slice(b"&quot;"),
+            b'\r' => o.extend_from_slice(b"&#13;"),
             _ => o.push(b),
         }
     }
